@@ -353,7 +353,66 @@ def extra_checks(tier, seed, repo):
             gz = sv.zb(goal) if isinstance(goal, sv.SV) else (z3.BoolVal(goal) if isinstance(goal, bool) else goal)
             ob.add(solve.prove([], gz, 20, opts))
             obs.append(ob.finish().as_dict())
-    return {"obligations": obs}
+    rel_obs, bounded = _relational_bounded(seed, repo)
+    return {"obligations": obs + rel_obs, "bounded": [bounded]}
+
+
+def _run_relational(seed, repo, only=None):
+    """contracts/C07_relational.py under the repository's interpreter -> its JSON summary"""
+    import json
+    import os
+    import subprocess
+    import tempfile
+    here = os.path.dirname(os.path.abspath(__file__))
+    py = os.environ.get("PYVC_REPLAY_PYTHON", "/venv/bin/python")
+    fd, out = tempfile.mkstemp(prefix="pyvc-c07rel.", suffix=".json")
+    os.close(fd)
+    try:
+        cmd = [py, os.path.join(here, "C07_relational.py"), repo, str(seed), out] + ([only] if only else [])
+        r = subprocess.run(cmd, capture_output=True, text=True, timeout=900)
+        try:
+            with open(out) as f:
+                return json.load(f)
+        except Exception:
+            return {"relations_checked": 0, "failed": [], "errors": [{"error": (r.stderr or r.stdout)[-800:]}], "checked": [], "bound": ""}
+    except subprocess.TimeoutExpired:
+        return {"relations_checked": 0, "failed": [], "errors": [{"error": "timeout"}], "checked": [], "bound": ""}
+    finally:
+        if os.path.exists(out):
+            os.unlink(out)
+
+
+def _relational_bounded(seed, repo):
+    """BOUNDED stand-in for the observables that are not run relationally by the symbolic executor (S(q), neighbour sets under the
+    whole group, BOO invariants, tetrahedral order, pair entropy, Hessian spectra, relaxation functions, shape descriptors,
+    participation ratio; translations, lattice shifts, relabelling, axis permutations, rotations of open clusters, dilation):
+    the statement itself evaluated on the real code for seeded configurations in general position.  Reported under `bounded`, never
+    counted as proved; a failing relation is a genuine violation with its input (replayed by replay_extra)."""
+    d = _run_relational(seed, repo)
+    obs = []
+    for r in d.get("failed", []):
+        name = f"C07:relational(bounded):{r['observable']}/{r['group']}"
+        obs.append({"name": name, "status": "REFUTED", "ms": 0, "backends": ["bounded-relational-replay"], "queries": 1, "replayable": True,
+                    "failed": [{"status": "REFUTED", "reason": "observable(g.x) != g.observable(x) on the real code: " + str(r.get("detail"))[:300],
+                                "model": {"observable": r["observable"], "group": r["group"], "inputs": r.get("inputs")}, "path": ""}]})
+    bounded = {"what": "C07 relational stand-in (contracts/C07_relational.py): observable(g.x) == g.observable(x) on the real code",
+               "bound": d.get("bound"), "relations_checked": d.get("relations_checked"), "failed": len(d.get("failed", [])),
+               "checked": d.get("checked"), "errors": [e.get("error", "")[-300:] for e in d.get("errors", [])][:3], "counted_as_proved": False}
+    return obs, bounded
+
+
+def replay_extra(rec):
+    """replay of a failed bounded relation: the same seeded harness restricted to that observable, on the real code"""
+    name = rec.get("obligation", "")
+    if ":relational(bounded):" not in name:
+        return {"ran": False, "error": "no replay harness for this lemma"}
+    obs, grp = name.split(":relational(bounded):", 1)[1].rsplit("/", 1)
+    d = _run_relational(int(rec.get("seed") or 0), rec.get("repo") or "/repo", only=obs)
+    bad = [r for r in d.get("failed", []) if r["observable"] == obs and r["group"] == grp] or d.get("failed", [])
+    if bad:
+        return {"ran": True, "failed": True, "searched": d.get("relations_checked"), "inputs": bad[0].get("inputs"),
+                "detail": f"{bad[0]['observable']} under {bad[0]['group']}: {bad[0].get('detail')}"}
+    return {"ran": bool(d.get("relations_checked")), "failed": False, "searched": d.get("relations_checked"), "error": "; ".join(e.get("error", "")[-200:] for e in d.get("errors", []))}
 
 
 # functional units the lemma route rests on (re-verified with this property): the g(r) count/normalisation clauses for one and two species
